@@ -24,9 +24,10 @@ PlantSchema(p) ==
 Carriers == {"prop", "patprop", "defs", "items", "tuple", "addprops", "additems_tuple",
              "additems_single", "additems_bare", "allOf", "anyOf", "oneOf", "not"}
 Wrap(k, s) ==
-  CASE k = "prop"     -> Obj([properties |-> MapOf("N_1", s)])
-    [] k = "patprop"  -> Obj([patternProperties |-> MapOf("N_2", s)])
-    [] k = "defs"     -> Obj([definitions |-> MapOf("N_3", s)])
+  CASE k = "prop"     -> Obj([properties |-> Mk(<<>>, ("N_1" :> s) @@ ("N_11" :> Leaf("number")))])
+    \* (map-valued carriers get a sibling of a different shape: an index entry must carry ITS schema, not a neighbour's)
+    [] k = "patprop"  -> Obj([patternProperties |-> Mk(<<>>, ("N_2" :> s) @@ ("N_12" :> Leaf("integer")))])
+    [] k = "defs"     -> Obj([definitions |-> Mk(<<>>, ("N_3" :> s) @@ ("N_13" :> Leaf("boolean")))])
     [] k = "items"    -> Mk([type |-> "array"], [items |-> s])
     [] k = "tuple"    -> Mk([type |-> "array"], [items |-> ListOf(<<Leaf("integer"), s>>)])
     [] k = "addprops" -> Obj([additionalProperties |-> s])
